@@ -813,6 +813,9 @@ func values(lo, hi int, worker int) {
 
 func main() {
 	r = mon.Start("C13", "exploration")
+	// the process's local zone is not UTC (and not a whole number of hours): code that builds or
+	// reads an instant through time.Local where UTC is meant shifts every result
+	time.Local = time.FixedZone("VERIF-0930", -(9*3600 + 30*60))
 	r.Rule("Every 128-bit value of the boundary set (all-zero, all-ones, the 128 single-bit patterns and their complements, each octet 0xFF alone, counting patterns, published UUIDs) and seeded random values, through: generic UUID (binary and text, three letter cases), the v1/v2/v8 parsers (with the value's own version nibble for the accept/refuse decision and with the nibble forced for the round trip), GUID raw bytes and the five text formats N/D/B/P/X in four letter cases via FromString and the direct parser; plus field assignments (v1 time x clock sequence x node incl. via SetTime, v2, v8, GUID) at width boundaries and random. Non-trivial: each distinct boundary (entry family, value) pair, and each distinct random 128-bit value / v1 field tuple counted once (it passes through all families); all values except all-zero have high bits set in some field. State monitors (state.go): one parse target per type reused over a chain of boundary and random values (all-ones before all-zero, each single-bit value after its complement, refused inputs in between) and compared with a fresh target; caller buffers overwritten after parsing; fields assigned directly or through setters and formatted with no call in between; returned slices held in a ring of 64 and compared again later. Each chain element (value, predecessor) counts once.")
 	r.Assume(
 		"uuid.UUID's Variant is the whole high nibble of octet 8 and Data the remaining 30 nibbles in order (the library's own container; judged for losslessness and against a nibble-level reference)",
